@@ -13,6 +13,17 @@ def gotOf (s : Json) (c : Nat) : Except String (List ServerMsg) :=
 
 def step (_ : Unit) (j : Json) : Except String (Unit × Drv.Out) := do
   let op ← strF j "op"
+  if op == "routergone" then
+    -- publishers that hand over one event and are gone at once: an event whose publisher was told OK was published
+    -- (`recv`: Publish, then the OK), so the open matching subscription of the reading connection is owed it
+    let out ← fld j "out"
+    let missing ← asArr (← fld out "missing")
+    let mut o : Drv.Out := { nontrivial := true }
+    o := o.tag "publisher-gone"
+    if missing.length > 0 then
+      o := o.diff s!"publishers that disconnect at once: {missing.length} event(s) answered by OK never reached the open match-all subscription"
+      o := o.mon "delivery" "missing-delivery" s!"{missing.length} of {(fldD out "told").compress} events whose publisher was told OK (and had gone away at once) never reached the open match-all subscription \"s\" of a connection that reads everything: {(fldD out "missing").compress.take 300}"
+    return ((), o)
   if op != "router" then throw s!"unknown op {op}"
   let n ← natF j "n"
   let buflen ← natF j "buflen"
